@@ -718,11 +718,14 @@ def run_wire_engine(ctx, spec):
     cov = ctx.coverage
     cov["evaluations"] += s["cases"] + s["cuts"]
     cov["distinct_nontrivial"] += s["cases"]
-    cov.setdefault("engines", []).append({"engine": "wire", "commits": s["cases"], "prefix_verdicts": s["cuts"], "bytes": s["bytes"], "model_disagreements": len(bad)})
+    cov.setdefault("engines", []).append({"engine": "wire", "commits": s["cases"], "buffers": s.get("buffers", 0), "prefix_verdicts": s["cuts"], "bytes": s["bytes"], "model_disagreements": len(bad)})
     cov["samples"] += [{"engine": "wire", "case(commit,bytes,cuts)": x[:500]} for x in (s.get("samples") or [])[:1]]
     what = {1: "Commit.WriteTo's bytes differ from commit_enc", 2: "commit_dec does not decode the bytes back to the commit", 3: "Commit.ReadFrom accepts/rejects a prefix differently from commit_dec"}
     for case, tag in bad[:4]:
-        ctx.violation("wire", f"{what.get(tag, tag)} (generated commit {case}, seed {ctx.seed})", data={"engine": "wire", "seed": ctx.seed, "case": case, "tag": tag})
+        w = what.get(tag, str(tag))
+        if case >= 100000:
+            w = w.replace("Commit.WriteTo", "Buffer.WriteTo").replace("commit_enc", "wbuffer_enc").replace("commit_dec", "wbuffer_dec")
+        ctx.violation("wire", f"{w} (generated case {case}, seed {ctx.seed})", data={"engine": "wire", "seed": ctx.seed, "case": case, "tag": tag})
 
 
 ENGINES = {"wire": run_wire_engine, "bitmap": run_bitmap_engine, "ttl": run_ttl_engine, "hist": run_hist_engine, "race": run_race_engine, "persist": run_persist_engine, "alloc": run_alloc_engine, "codec": run_codec_engine, "sched": run_sched_engine}
